@@ -47,6 +47,14 @@ CHECKS.update({
                 text='Complete write+read sessions executed symbolically under every schedule with at most one preemption at a mutex '
                      'release / thread start; on every schedule file bytes and delivered objects must match the schedule-free expectation.',
                 note='2 objects; preemption bound 1 complete; deeper interleavings by the monitor reduction (C11, C15, C16)'),
+    'C08': dict(cat='model_checking', ref='§C08',
+                text='A file written inside the symbolic run is cut at EVERY offset (complete enumeration); the real read pipeline must '
+                     'deliver exactly the objects of completely stored containers (independent walk), unmodified for all field values, then end.',
+                note='4 objects; 2 quick / 6 thorough configurations; zlib by contract model'),
+    'C09': dict(cat='model_checking', ref='§C09',
+                text='Signature matcher executed on fully symbolic filler; unknown objects (symbolic unassigned code, arbitrary body) and filler '
+                     'between objects, also across containers, read through the real pipeline; neighbours must come back identical.',
+                note='filler <= 7/9 bytes (matcher), <= 3 bytes (file level); five unknown sizes'),
     'C10': dict(cat='model_checking', ref='§C10',
                 text='Every decoder runs on symbolic bytes with bounds/lifetime-checked memory; the whole three-thread read '
                      'pipeline runs on a file with a symbolic object header and must terminate (deadlock and step-budget detection).',
